@@ -43,18 +43,30 @@
       model was too short) counts as an error outcome of the MODEL; the
       implementation draws from an infinite stream.
 
-      NOT proved: C14_conforms (the lockstep of literal / composite / variant /
-      tuple / array / vec forms with the parsed module).  It is checked on every
-      observed example by the independent reader [Corr.RunC14.conformsb]
-      ([prop_conforms], evaluated by the kernel's VM), which found the two known
-      findings F14 (Cow) and F15 (marker decided per instantiation); on the
-      model side the statement is false without the [skeleton_consistent]
-      hypothesis (F15) and for [Cow] entries (F14).
+      UPDATE 2: C14_conforms IS NOW PROVED for the model, against the model's GENERATED ITEMS
+      (the IR map returned by [generate], which [Model/Emit.v] prints) instead of the parsed
+      token text: [Model.Conforms.conforms r s m id ts rest] is an inductive relation ("[ts] is an
+      instance of the type generated for [id], followed by [rest]") and [C14_conforms] (end of
+      this file) states: [generate r s teq = Ok m -> skeleton_consistent r s ->
+      example_rust r s id ws = XOk ts -> conforms r s m id ts []] -- for EVERY registry (no
+      well-formedness hypothesis is needed: an [XOk] outcome presupposes everything; bit
+      sequences and 256-bit integers are covered by their fixed forms), id, word list and
+      settings.  [skeleton_consistent] (DESIGN 3.3) excludes F15; without it the statement is
+      false (the marker is decided on the instantiation, the item is the first entry's).
+      [Cow] entries (F14, fixed) are instances of their parameter.
+      STILL ONLY CHECKED (not proved): that the relation on the model's IR coincides with what the
+      independent reader [Corr.RunC14.conformsb] decides on the PARSED OBSERVED module, i.e. the
+      passage through [emit_module] + [parse_module].  It is tied down by a proved-sound boolean
+      reader for the relation ([conforms_irb], [C14_conforms_irb_sound]) whose verdict is compared
+      with [conformsb] on every observed example (tag [corr_conforms_agree]); [prop_conforms]
+      still evaluates [conformsb] on every observed example.
 
     Determinism: [example_rust] is a Gallina function of (r, s, id, ws). *)
 From Coq Require Import List NArith ZArith String.
-From V Require Import Base.Result Model.Registry Model.Settings Model.RngWords Model.ExampleRust
-  Model.WellFormed Proofs.ExampleRustProofs Proofs.ExampleRustTotal.
+From V Require Import Base.Result Model.Registry Model.Settings Model.RngWords Model.Generate Model.Equal
+  Model.Shape Model.ExampleRust Model.Conforms
+  Model.WellFormed Proofs.ExampleRustProofs Proofs.ExampleRustTotal Proofs.ConformsProofs
+  Proofs.ConformsExamples.
 Import ListNotations.
 
 Theorem C14_total_partial :
@@ -160,3 +172,115 @@ Theorem C14_total_hypotheses_satisfiable :
     (exists id ws t, example_rust r s id ws = XOk t).
 Proof. exact wf_hypotheses_satisfiable. Qed.
 Print Assumptions C14_total_hypotheses_satisfiable.
+
+(** ** C14_conforms (lockstep half), for the model, against the generated items.
+
+    [conforms r s m id ts rest] (Model/Conforms.v, an inductive relation; [m] = the generated
+    items): [ts = e ++ rest] where [e] is an instance of the type the generator emits for [id]:
+    - struct / variant literal: the generated path of [id] without generics
+      ([path_omit_generics] = [resolve_type_path] + printing, cut at the first top-level '<'); if
+      the entry is turned into an item ([item_eligible]) the item is LOOKED UP in [m] at the entry's
+      path and the literal has the ITEM's field names in the item's order / the item's arity, plus the
+      [__ignore : ::core::marker::PhantomData] / positional [::core::marker::PhantomData] slot
+      exactly when the item has unused type parameters ([ti_unused] non-empty); a variant literal
+      names a variant of the registry entry that the item also has, with that item variant's
+      fields and no marker; every field value is an instance of the registry field's type;
+    - no generated item (prelude / substituted path): the registry definition's form, marker
+      optional; [None] for a field-less [None] variant when the printed path is the bare [Option];
+    - [Cow<T>]: an instance of [T]; compact entries: an instance of the inner type;
+    - literals: [<n>u8 .. u128] with [n < 2^bits]; signed [- <n>iN] / [<n>iN] in range; [true] /
+      [false]; ['c']; ["..." . into ( )]; 256-bit integers as 32 [u8] literals in brackets;
+    - tuples [( e1 , .. , en , )] of exactly the tuple's arity (1-tuple [( e , )]); arrays
+      [[ e ; <len>usize ]] or exactly [len] comma-separated elements; [vec ! [ e , .. ]] of any length;
+    - [Compact ( e )] exactly around fields whose recorded type name starts with "Compact<".
+
+    Quantifier: EVERY registry, settings, [types_equal] oracle, id and word list such that the
+    module is generated ([generate .. = Ok m]) and same-path entries have equal skeletons
+    ([skeleton_consistent], DESIGN 3.3 -- excludes the known finding F15; trivially true when item
+    paths are unique and each IR is built).  Bit sequences and 256-bit integers need not be excluded. *)
+Theorem C14_conforms :
+  forall (r : registry) (s : settings) (teq : N -> N -> result bool) (m : items),
+    generate r s teq = Ok m -> skeleton_consistent r s ->
+    forall (id : N) (ws : words) (ts : tokens),
+      example_rust r s id ws = XOk ts -> conforms r s m id ts [].
+Proof. exact example_conforms. Qed.
+Print Assumptions C14_conforms.
+
+(** the same with the hypotheses as the run-time booleans / the real [types_equal] *)
+Theorem C14_conforms_checked :
+  forall (r : registry) (s : settings) (m : items),
+    generate r s (types_equal r) = Ok m -> skeleton_consistentb r s = true ->
+    forall (id : N) (ws : words) (ts : tokens),
+      example_rust r s id ws = XOk ts -> conforms r s m id ts [].
+Proof. exact example_conforms_checked. Qed.
+Print Assumptions C14_conforms_checked.
+
+(** the boolean reader that is run on every OBSERVED example next to the independent reader
+    ([corr_conforms_agree]) is sound for the relation *)
+Theorem C14_conforms_irb_sound :
+  forall (r : registry) (s : settings) (m : items) (id : N) (ts : tokens),
+    conforms_irb r s m id ts = true -> conforms r s m id ts [].
+Proof. exact conforms_irb_sound. Qed.
+Print Assumptions C14_conforms_irb_sound.
+
+Theorem C14_conf_ir_sound :
+  forall (r : registry) (s : settings) (m : items) (fuel : nat) (id : N) (ts rest : tokens),
+    conf_ir r s m fuel id ts = Some rest -> conforms r s m id ts rest.
+Proof. exact conf_ir_sound. Qed.
+Print Assumptions C14_conf_ir_sound.
+
+(** the item consulted for an item-eligible entry has the signature of the entry's OWN IR (the one
+    [has_unused_type_params] looks at): the step that needs [skeleton_consistent] (F15) *)
+Theorem C14_item_of_entry :
+  forall (r : registry) (s : settings) (teq : N -> N -> result bool) (m : items),
+    generate r s teq = Ok m -> skeleton_consistent r s ->
+    forall (id : N) (X : ty), In (id, X) r -> item_eligible s X = true ->
+    exists (id0 : N) (ir0 irX : type_ir),
+      items_get m (t_path X) = Some (id0, ir0) /\
+      create_type_ir r s X flat0 = Ok (Some irX) /\
+      sig_of_ir ir0 = sig_of_ir irX.
+Proof. exact item_of_entry. Qed.
+Print Assumptions C14_item_of_entry.
+
+(** non-vacuity: the hypotheses hold on a registry with an unused-parameter struct, and the
+    conclusion is inhabited by an example that carries the marker (Proofs/ConformsExamples.v also
+    evaluates the reader on a variant, a 1-tuple, arrays, a Compact field, a sequence, [Option],
+    and on near misses that must be rejected) *)
+Theorem C14_conforms_nonvacuous :
+  exists (r : registry) (s : settings) (m : items) (id : N) (ws : words) (ts : tokens),
+    generate r s (types_equal r) = Ok m /\ skeleton_consistent r s /\
+    example_rust r s id ws = XOk ts /\ In "PhantomData"%string ts /\ conforms r s m id ts [].
+Proof. exact conforms_nonvacuous. Qed.
+Print Assumptions C14_conforms_nonvacuous.
+
+(** the hypothesis [skeleton_consistent] cannot be dropped: the registry of the known finding F15
+    (corpus/C14/F15_marker_per_instance.json) is generated without error, yet the example of its
+    second same-path entry is not an instance (it lacks the marker the stored item declares) *)
+Theorem C14_conforms_needs_consistency :
+  exists (r : registry) (s : settings) (m : items) (id : N) (ws : words) (ts : tokens),
+    generate r s (types_equal r) = Ok m /\ skeleton_consistentb r s = false /\
+    example_rust r s id ws = XOk ts /\ ~ conforms r s m id ts [].
+Proof. exact conforms_needs_consistency. Qed.
+Print Assumptions C14_conforms_needs_consistency.
+
+(** the literal path of an item-eligible entry ("the generated path without generics") is the
+    location of the item in the module, [root :: <entry path>] -- the key [conforms] looks up *)
+Theorem C14_literal_path :
+  forall (r : registry) (s : settings) (id : N) (X : ty) (p : tokens),
+    resolve r id = Some X -> item_eligible s X = true ->
+    path_ident (t_path X) <> Some "Cow"%string ->
+    Strings.ident_lexb (s_root s) = true ->
+    path_omit_generics r s id = Ok p -> p = TypePath.rel_path (s_root s :: t_path X).
+Proof. exact eligible_literal_path. Qed.
+Print Assumptions C14_literal_path.
+
+(** without any consistency hypothesis when no two item-eligible entries share a path *)
+Theorem C14_conforms_unique_paths :
+  forall (r : registry) (s : settings) (teq : N -> N -> result bool) (m : items),
+    generate r s teq = Ok m ->
+    (forall (id : N) (X : ty) (id' : N) (X' : ty), In (id, X) r -> In (id', X') r ->
+       item_eligible s X = true -> item_eligible s X' = true -> t_path X = t_path X' -> X = X') ->
+    forall (id : N) (ws : words) (ts : tokens),
+      example_rust r s id ws = XOk ts -> conforms r s m id ts [].
+Proof. exact example_conforms_unique. Qed.
+Print Assumptions C14_conforms_unique_paths.
